@@ -15,7 +15,29 @@ TNN == /\ IsEvent("nn")
        /\ Len(Log[l].got) = Len(Log[l].k)
        /\ \A i \in 1..Len(Log[l].k) : Log[l].got[i] \in NNAllowed(Log[l].k[i], Log[l].rel[i])
 
-TNext == TNN
+\* {e:"box", rel:[per axis "below"|"lo"|"in"|"hi"|"above"|"lohi"], eqlo, eqhi, eqx (clamp result vs lo / hi / x per axis),
+\*  is_default, queries, queried_at_x (backup over the probe)}: the harness abstracted every axis to its ORDER relation with
+\* the box by exact comparisons; a canonical rank triple with that relation is pushed through Coord!ClampC / InBox
+CanonHi(deg) == IF deg = 1 THEN 0 ELSE 2
+CanonX(rel, deg) == CASE rel = "below" -> -1 [] rel = "lo" -> 0 [] rel = "in" -> 1 [] rel = "hi" -> 2
+                      [] rel = "above" -> CanonHi(deg) + 1 [] rel = "lohi" -> 0
+B2I(b) == IF b THEN 1 ELSE 0
+TBox == /\ IsEvent("box")
+        /\ LET ev == Log[l]
+               n == Len(ev.rel)
+               x == [i \in 1..n |-> CanonX(ev.rel[i], ev.deg[i])]
+               lo == [i \in 1..n |-> 0]
+               hi == [i \in 1..n |-> CanonHi(ev.deg[i])]
+               y == Clamp(x, lo, hi)
+           IN /\ \A i \in 1..n : ev.rel[i] \in {"below", "lo", "in", "hi", "above", "lohi"}
+              /\ \A i \in 1..n : ev.eqlo[i] = B2I(y[i] = lo[i])
+              /\ \A i \in 1..n : ev.eqhi[i] = B2I(y[i] = hi[i])
+              /\ \A i \in 1..n : ev.eqx[i] = B2I(y[i] = x[i])
+              /\ ev.is_default = ~InBox(x, lo, hi)
+              /\ ev.queries = B2I(InBox(x, lo, hi))
+              /\ ev.queried_at_x = TRUE
+
+TNext == TNN \/ TBox
 TSpec == TInit /\ [][TNext]_tvars
 Accepted == IF TLCGet("stats").diameter - 1 = Len(Log)
             THEN TRUE
